@@ -94,12 +94,37 @@ fn structure(a: &Automaton, d: &AutDump) -> Value {
             edges.push(e);
         }
         let finals: Vec<usize> = a.final_states().map(|s| s.id() + 1).collect();
-        json!({"classes": classes, "comp_empty": part.empty_complement(), "comp_witness": part.pick_complement(),
+        // accepts(w) called on whole words (indices into the dump's representatives): every word of length <= 2 over
+        // up to 12 representatives, and of length 3 over three of them
+        let nr = d.reps.len();
+        let some: Vec<usize> = if nr <= 12 { (0..nr).collect() } else { (0..12).map(|i| i * (nr - 1) / 11).collect() };
+        let three: Vec<usize> = vec![0, nr / 2, nr - 1];
+        let mut words: Vec<Vec<usize>> = vec![vec![]];
+        for &i in &some {
+            words.push(vec![i]);
+            for &j in &some {
+                words.push(vec![i, j]);
+            }
+        }
+        for &i in &three {
+            for &j in &three {
+                for &k in &three {
+                    words.push(vec![i, j, k]);
+                }
+            }
+        }
+        let acc: Vec<Value> = words
+            .iter()
+            .map(|w| {
+                let sw: aws_smt_strings::smt_strings::SmtString = w.iter().map(|&i| d.reps[i]).collect::<Vec<u32>>().into();
+                json!({"w": w.iter().map(|&i| i + 1).collect::<Vec<usize>>(), "r": a.accepts(&sw)})
+            })
+            .collect();
+        json!({"acc": acc, "classes": classes, "comp_empty": part.empty_complement(), "comp_witness": part.pick_complement(),
             "alphabet": alphabet, "table_alpha": table.alphabet_size(), "table_states": table.num_states(),
             "cells": cells, "by_next": by_next, "edges": edges, "final_states": finals,
             "num_states": a.num_states(), "num_final": a.num_final_states(), "init": a.initial_state().id() + 1})
     });
-    let _ = d;
     match r {
         Ok(v) => v,
         Err(msg) => json!({"panic": msg}),
